@@ -271,9 +271,9 @@ theorem nvecsVs_lengths (hT : T.WFn) (n : Nat) (hn : n < T.factors.length) :
       rw [getD0_of_le _ _ h1, getD0_of_le _ _ h2]
 
 theorem ttmList_nvecsVs (hT : T.WFn) (n : Nat) (hn : n < T.factors.length) :
-    T.core.ttmList (T.nvecsVs n) = .ok (Dense.ofFn ((T.nvecsVs n).map List.length) fun i =>
+    T.core.ttmListNv (T.nvecsVs n) = .ok (Dense.ofFn ((T.nvecsVs n).map List.length) fun i =>
       ((allSubs T.core.shape).map fun l => vprod (T.nvecsVs n) i l * T.core.get l).sum) := by
-  unfold Dense.ttmList
+  unfold Dense.ttmListNv
   have h1 : ((T.nvecsVs n).length != T.core.shape.length) = false := by
     rw [nvecsVs_length, hT.len]; simp
   have h2 : ((List.range (T.nvecsVs n).length).any fun k =>
@@ -324,7 +324,7 @@ theorem colMat_get [Zero α] (D : Dense α) (n a c : Nat) (hn : n < D.shape.leng
   exact unfold_entry_col D n a c hn ha hc
 
 theorem nvecsGram_tucker_eq [Add α] [Mul α] [Zero α] [One α] (T : Ttensor α) (n : Nat) (hn : n < T.factors.length)
-    (H : Dense α) (hH : T.core.ttmList (T.nvecsVs n) = .ok H) (hnH : n < H.shape.length)
+    (H : Dense α) (hH : T.core.ttmListNv (T.nvecsVs n) = .ok H) (hnH : n < H.shape.length)
     (hncs : n < T.core.shape.length) :
     T.nvecsGram n = .ok (matMulN (transposeN (colMat H n).toMat (T.factors.getD n []).length)
       (matMulT (colMat T.core n).toMat (T.factors.getD n [])) (T.factors.getD n []).length) := by
